@@ -68,11 +68,32 @@ def fresh_roundtrip(store, user, d, rng, tag):
     return True, got == want, '~' if got == want else 'restored tree differs'
 
 
+def long_pw(tag):
+    """a password of exactly 64 bytes (the key-size limit of BLAKE2b: the boundary at which key material could get cut off)"""
+    return (b'pw-' + tag + b'-').ljust(64, b'#')
+
+
+def impostors(real):
+    """wrong passwords that are close to the real one: longer, shorter, different only in the last byte"""
+    return [('real+1', real + b'!'), ('real+many', real + b' and a long tail' * 5), ('real-1', real[:-1]), ('last-byte', real[:-1] + bytes([real[-1] ^ 1]))]
+
+
+def impostor_events(w, store, keyname, key, real):
+    evs = []
+    for desc, pw in impostors(real):
+        tmp = harness.User('x', pw, key, None)
+        o = w.command(tmp, lambda r: r.list_snapshots(header=False), cache=None)
+        evs.append({'a': 'unlock', 'key': keyname, 'pw': 'impostor:' + desc, 'ok': bool(o.ok), 'own': False, 'detail': o.etype})
+    return evs
+
+
 def init_point(h, c, e, x, valid, d, rng):
     store = membackend.Store()
     w = harness.World(store=store, concurrent=2)
     settings = build(h, c, e, x)
     pw = b'pw-' + rng.randbytes(3).hex().encode()
+    if rng.random() < 0.5 or 'blake2b' in e:
+        pw = long_pw(rng.randbytes(3).hex().encode())
     ev = {'a': 'init', 'point': [h, c, e, x], 'valid': bool(valid), 'accepted': True, 'mutations': 0, 'unlock': False, 'roundtrip': False, 'detail': '~'}
     # the key is taken from the file replicat writes (--key-output-file); for every other point a LONGER file is already there
     # (an old key, a note): what counts is what is on disk afterwards
@@ -100,13 +121,15 @@ def init_point(h, c, e, x, valid, d, rng):
         w2.users['u'] = user
         o = w2.list_snapshots('u')
         ev['unlock'] = bool(o.ok)
+    if user.key is not None and ev['unlock']:
+        return [ev] + impostor_events(harness.World(store=store, concurrent=2), store, 'owner', user.key, pw)
     return ev
 
 
 def chain_events(chain, d, rng):
     store = membackend.Store()
     w = harness.World(store=store, concurrent=2)
-    w.init('k0', b'pw-0', harness.settings(encrypted=True, min_length=32, max_length=128))
+    w.init('k0', long_pw(b'0'), harness.settings(encrypted=True, min_length=32, max_length=128))
     evs = []
     names = ['k0']
     for i, (kind, kdf) in enumerate(chain):
@@ -120,7 +143,7 @@ def chain_events(chain, d, rng):
             kf.write_bytes(w.users[frm].key + b' ' * 200)        # e.g. replacing a key file in place: the old, longer content is there
         ev['keyfile'] = mode
         try:
-            w.add_key(frm, nm, b'pw-%d' % (i + 1), shared=(kind == 'shared'), clone=(kind == 'clone'), settings_={'encryption': {'kdf': dict(K[kdf])}},
+            w.add_key(frm, nm, long_pw(b'%d' % (i + 1)), shared=(kind == 'shared'), clone=(kind == 'clone'), settings_={'encryption': {'kdf': dict(K[kdf])}},
                       key_file=None if mode == 'print' else str(kf))
         except BaseException as ex:  # noqa: BLE001
             ev.update(accepted=False, detail='%s: %s' % (type(ex).__name__, str(ex)[:100]), mutations=len(store.mutlog) - before)
@@ -139,6 +162,8 @@ def chain_events(chain, d, rng):
             tmp = harness.User('x', w.users[pn].password, w.users[kn].key, None)
             o = w.command(tmp, lambda r: r.list_snapshots(header=False), cache=None)
             evs.append({'a': 'unlock', 'key': kn, 'pw': pn, 'ok': bool(o.ok), 'own': w.users[pn].password == w.users[kn].password, 'detail': o.etype})
+    for kn in names:
+        evs += impostor_events(w, store, kn, w.users[kn].key, w.users[kn].password)
     return evs
 
 
@@ -185,7 +210,8 @@ def main(run):
         for k, (h, c, e, x, valid) in enumerate(chosen):
             sub = d / ('p%d' % k)
             sub.mkdir()
-            traces.append({'events': [init_point(h, c, e, x, valid, sub, rng)]})
+            evs_ = init_point(h, c, e, x, valid, sub, rng)
+            traces.append({'events': evs_ if isinstance(evs_, list) else [evs_]})
             run.case(('init', h, c, e, x), nontrivial=True)
         for k, ch in enumerate(chains):
             sub = d / ('c%d' % k)
@@ -204,7 +230,8 @@ def main(run):
             run.note_drift(drift)
     run.add(traces_validated_against_impl=len(events), accepted=sum(1 for e in events if e['a'] == 'init' and e['accepted']),
             rejected=sum(1 for e in events if e['a'] == 'init' and not e['accepted']))
-    run.sample({k: events[1][k] for k in ('a', 'point', 'valid', 'accepted', 'mutations', 'unlock', 'roundtrip', 'detail')})
+    first = next(e for e in events if e['a'] == 'init' and e['accepted'])
+    run.sample({k: first[k] for k in ('a', 'point', 'valid', 'accepted', 'mutations', 'unlock', 'roundtrip', 'detail')})
     run.coverage['rule'] = ('a case is one point of the settings lattice enumerated by TLC (hashing x chunking x encryption x extra groups; all single-group '
                             'variations around the default, the rest sampled by seed) run through init + a fresh-process round trip, or one add-key chain with its unlock matrix')
     run.assumptions += ['scrypt work factors are kept tiny for speed', 'usable = unlock + snapshot + restore of a small tree in a fresh Repository object']
